@@ -52,7 +52,7 @@ LEXTOK = ['0', '1', '7', '12', '1.5', '.5', '1,5', ',5', '1e3', '1e', '1e+', '0x
           '\\', 'λ', '.', '..', '[', ']', '{', '}', '~', '`', '?', '#', '##', '# ', '#!', '# c\n', '#!c\n', '# é\n', '#"', '"#', '#"raw"#', '#"é"#', '#""#', '#"a"b"#', '#"\n"#',
           '"', "'", '""', "''", '"a"', "'a'", '"é"', "'€'", '"a\'b"', "'a\"b'", '"\\n"', '"\\\\"', '"\\""', "'\\''", '"\\a\\b\\e\\f\\r\\t\\v"', '"\\x41"', '"\\x7f"', '"\\x80"', '"\\x4"', '"\\x"',
           '"\\xé1"', '"\\x4é"', '"\\u{41}"', '"\\u{e9}"', '"\\u{10ffff}"', '"\\u{110000}"', '"\\u{d800}"', '"\\u{}"', '"\\u{"', '"\\u"', '"\\u41"', '"\\u{4g}"', '"\\u{0000000041}"',
-          '"\\u{ffffffff}"', '"\\u{é}"', '"\\z  a"', '"\\z\n\t a"', '"\\z\u00a0a"', '"\\z\x0ba"', '"\\z"', '"\\^A"', '"\\^?"', '"\\^@"', '"\\^_"', '"\\^a"', '"\\^ŀ"', '"\\^é"', '"\\^"', '"\\q"', '"\\é"', '"\\',
+          '"\\u{ffffffff}"', '"\\u{é}"', '"\\z  a"', '"\\z\n\t a"', '"\\z\u00a0a"', '"\\z\x0ba"', '"\\z"', '"\\^A"', '"\\^?"', '"\\^>"', '"\\^`"', '"\\^["', '"\\^~"', '"\\x77"', '"\\x78"', '"\\x7g"', '"\\x0a"', '"\\^@"', '"\\^_"', '"\\^a"', '"\\^ŀ"', '"\\^é"', '"\\^"', '"\\q"', '"\\é"', '"\\',
           '@', '@1', '@2020', '@2020-', '@2020-01', '@2020-01-', '@2020-01-02', '@2020-13-02', '@2020-01-021', '@0999-01-01', '@2020-1-2', '@20200102', '@x', '@é', '@-', '@2020-01-02x', '@2020-01-02-03',
           "5'", '5"', "5'x", '5"x', "5'é", "5 'é", "5''", "5'1", "5'x'", "5'x.y", "5'λ", "5'%", "to 'x", "to'x'", "in \"x\"", "5 '", "5'€", "5'x€y", "5'ǅ", "5'ª",
           ' ', '  ', '\t', '\n', '\r\n', '\u00a0', '\u2028', '\u3000', '\u0085', '\u200b', '\x0b', '\x0c', '\x1c', '\x1f']
@@ -142,7 +142,7 @@ def heavy(t):
     """inputs on which parse_number starts a value-proportional computation
     (huge exponents): resource exhaustion is C07's subject, not the lexer's"""
     return re.search(r'[0-9][eE][+-]?[0-9]{4,}', t) is not None or re.search(r'[0-9]{1,}[⁰¹²³⁴⁵⁶⁷⁸⁹]{3,}', t) is not None \
-        or re.search(r'd[0-9]{6,}', t) is not None
+        or re.search(r'd[0-9]{6,}', t) is not None or re.search(r'[0-9]{3,}d[0-9]', t) is not None
 
 
 # ---------------------------------------------------------------------------
@@ -316,7 +316,7 @@ def part_tie(c):
         cases.append(('corpus', t, False))
     for t in r.sample(base, min(len(base), 300 if quick else len(base))):
         cases.append(('corpus', t, True))
-    for t in soup(r, 2500 if quick else 40000):
+    for t in soup(r, 2500 if quick else 25000):
         if not heavy(t):
             cases.append(('soup', t, r.random() < 0.35))
     for t in LEXTOK + MB:
@@ -329,7 +329,7 @@ def part_tie(c):
             cases.append(('adversarial', t, r.random() < 0.25))
     # every prefix (by character) of a sample
     pool = [t for k, t, _ in cases if k in ('corpus', 'adversarial', 'soup') and 2 <= len(t) <= 60]
-    for t in r.sample(pool, min(len(pool), 120 if quick else 1500)):
+    for t in r.sample(pool, min(len(pool), 120 if quick else 1000)):
         cm = r.random() < 0.2
         for k in range(len(t)):
             cases.append(('prefix', t[:k], cm))
@@ -547,3 +547,20 @@ def run(c, parts=('tie', 'tables', 'print')):
         part_tie(c)
     if 'print' in parts:
         part_print(c)
+
+
+def replay(c, obj):
+    """re-run one recorded lexer case: prints the real trace, the oracle tables
+    and the model's trace.  Returns True when obj is a lexer case."""
+    if 'text' not in obj or obj.get('kind') not in ('corpus', 'soup', 'alphabet', 'adversarial', 'prefix', 'ident-chars', 'print'):
+        return False
+    t, cm = obj['text'], bool(obj.get('comma'))
+    ti = c.impl('lex', [trace_line(t, cm)])[0]
+    oi = c.impl('lex', [oracle_line(t, cm)])[0]
+    print('text   %r (comma=%s)' % (t, cm))
+    print('impl   ' + ti[:3000])
+    print('oracle ' + oi[:1500])
+    o = try_parse(oi)
+    if isinstance(o, list) and len(o) == 3:
+        print('model  ' + c.model('lex', [model_line(t, cm, short_oracle(o))], cross=False)[0][:3000])
+    return True
